@@ -89,11 +89,39 @@ func probeBattery(w *world.World, ctx sdk.Context) string {
 }
 
 type caseC17State struct {
+	// Prior is the number of statistics routes that exist before the history starts (a chain that
+	// has been running for a while): route i is (IBC channel-<1000+i>) -> (CCTP domain i mod 5),
+	// denom uusdc, totals i+2 / i+1, count i+1.
+	Prior   int         `json:"prior,omitempty"`
 	History kit.History `json:"history"`
 }
 
 func runC17State(w *world.World, c caseC17State, rec *kit.Recorder) error {
 	m := kit.NewMachine(w)
+	if c.Prior > 0 {
+		g := orbitertypes.DefaultGenesisState()
+		for i := 0; i < c.Prior; i++ {
+			src := core.CrossChainID{ProtocolId: core.PROTOCOL_IBC, CounterpartyId: fmt.Sprintf("channel-%d", 1000+i)}
+			dst := core.CrossChainID{ProtocolId: core.PROTOCOL_CCTP, CounterpartyId: fmt.Sprint(i % 5)}
+			g.DispatcherGenesis.DispatchedAmounts = append(g.DispatcherGenesis.DispatchedAmounts, dispatchertypes.DispatchedAmountEntry{
+				SourceId: &src, DestinationId: &dst, Denom: world.Uusdc,
+				AmountDispatched: dispatchertypes.AmountDispatched{Incoming: sdkmath.NewInt(int64(i + 2)), Outgoing: sdkmath.NewInt(int64(i + 1))},
+			})
+			g.DispatcherGenesis.DispatchedCounts = append(g.DispatcherGenesis.DispatchedCounts, dispatchertypes.DispatchCountEntry{SourceId: &src, DestinationId: &dst, Count: uint64(i + 1)})
+		}
+		if err := g.Validate(); err != nil {
+			return fmt.Errorf("harness: prior statistics do not validate: %w", err)
+		}
+		var initErr any
+		func() {
+			defer func() { initErr = recover() }()
+			w.App.OrbiterKeeper.InitGenesis(m.Ctx, *g)
+		}()
+		if initErr != nil {
+			return fmt.Errorf("harness: importing the prior statistics panicked: %v", initErr)
+		}
+		rec.Label("state", fmt.Sprintf("prior statistics: %s routes", map[bool]string{true: "more than 100", false: "up to 100"}[c.Prior > 100]))
+	}
 	for _, s := range c.History {
 		m.Do(s)
 	}
@@ -109,6 +137,29 @@ func runC17State(w *world.World, c caseC17State, rec *kit.Recorder) error {
 	again := mod.ExportGenesis(fresh, w.Cdc)
 	if !bytes.Equal(exported, again) {
 		return fmt.Errorf("export -> init -> export is not the identity:\n  first:  %s\n  second: %s", exported, again)
+	}
+	// nothing the original state held may be lost on the way: every key of the original module
+	// store is in the re-imported store with the same value (the re-imported store may hold more,
+	// e.g. parameters written out explicitly)
+	{
+		src := m.Ctx.KVStore(w.App.GetKey(core.ModuleName))
+		dst := fresh.KVStore(w.App.GetKey(core.ModuleName))
+		it := src.Iterator(nil, nil)
+		lost, total := 0, 0
+		var first []byte
+		for ; it.Valid(); it.Next() {
+			total++
+			if v := dst.Get(it.Key()); !bytes.Equal(v, it.Value()) {
+				if lost == 0 {
+					first = append([]byte{}, it.Key()...)
+				}
+				lost++
+			}
+		}
+		it.Close()
+		if lost > 0 {
+			return fmt.Errorf("export -> init loses state: %d of the %d keys of the original module store are missing or different in the re-initialised store (first: %q)", lost, total, first)
+		}
 	}
 	// behaviour: the re-initialised state must behave identically. The rest of the chain state
 	// of `fresh` is the root state, so replay the non-orbiter effects is not needed: compare the
@@ -153,12 +204,16 @@ func TestC17RoundTrip(t *testing.T) {
 	}
 	rapid.Check(t, func(rt *rapid.T) {
 		c := caseC17State{History: kit.GenHistory(rt, opt)}
+		if kit.Chance(rt, "prior", 20) {
+			c.Prior = pick(rt, "prior/n", []int{1, 50, 99, 100, 101, 101, 130, 250})
+		}
 		rec.Eval()
 		if err := runC17State(w, c, rec); err != nil {
 			rec.Fail(rt, c, "%v", err)
 		}
 	})
 	rec.Require("state", "non-trivial (>= 2 collections populated)", 50)
+	rec.Require("state", "prior statistics: more than 100 routes", 10)
 }
 
 // ---------------------------------------------------------------------------------------------
